@@ -146,6 +146,25 @@ Theorem C06_continue_step : forall p r t n r1 l1, rtu_reader_represents p r t ->
 Proof. intros p r t n r1 l1 H Hb E. rewrite ReaderGeneric.sched_stream_eq. exact (rtu_represents_step' p r t n r1 l1 H Hb E). Qed.
 Print Assumptions C06_continue_step.
 
+(* THE RTU SERVER ACROSS PORT RE-OPENS. RtuServerTask keeps one reader for the life of the server; a framing
+   error ends a port session, the port is re-opened and the same reader is polled again (resume = true). The
+   reader delivers exactly what Spec/Framing.ref_rtu_reopen prescribes: session after session, every session
+   cut on its own FROM A CLEAN PARSER on what is left of the stream (the buffer is not cleared: after a CRC
+   failure the failed frame is gone, after an unknown function code / too long frame only its address byte). *)
+Theorem C06_reopen : forall p chunks fi, Forall bytes chunks ->
+  run_session (kind_of p) true chunks fi =
+  ref_rtu_reopen (role_of p) (fst (sched_stream chunks fi)) (snd (sched_stream chunks fi)).
+Proof. exact rtu_reopen. Qed.
+Print Assumptions C06_reopen.
+
+(* ... and so, across any number of errors and re-opens, a frame is acted on only if it sits in the received
+   stream with ITS OWN address and the correct CRC of that address and its PDU (C06_gate for the server's life) *)
+Theorem C06_reopen_gate : forall p chunks fi f, Forall bytes chunks ->
+  In (IFrame f) (fst (run_session (kind_of p) true chunks fi)) ->
+  exists pre post, fst (sched_stream chunks fi) = pre ++ rtu_frame_of (f_dest f) (f_pdu f) ++ post.
+Proof. exact rtu_reopen_gate. Qed.
+Print Assumptions C06_reopen_gate.
+
 (* The RTU client (and any other user of one FramedReader across port reopenings that resets it
    at connection start, as ClientLoop::run does): every connection's stream is delimited and
    CRC-gated on its own, whatever an earlier connection left in the buffer or the parser. *)
